@@ -396,6 +396,9 @@ func newSession(ld *loaded, rc RunCfg, harness, prop string, known []interp.Know
 	if hasArg {
 		s.Arg = &arg
 	}
+	if cc := os.Getenv("VERIF_CROSSCHECK"); cc != "" {
+		s.CrossCheck, _ = strconv.Atoi(cc)
+	}
 	if len(rc.PermuteRanges) > 0 {
 		s.PermuteRanges = map[string]bool{}
 		for _, f := range rc.PermuteRanges {
@@ -566,6 +569,10 @@ func cmdCheck(args []string) int {
 		}
 	}
 	seed, _ := strconv.Atoi(envOr("VERIF_SEED", "0"))
+	if tier == "thorough" && os.Getenv("VERIF_CROSSCHECK") == "" {
+		// thorough tier: a sample of the assertion queries is re-decided by z3 5.1 and cvc5
+		os.Setenv("VERIF_CROSSCHECK", "12")
+	}
 	cfgs, kf := readCfg()
 	cfg := cfgs[id]
 	if cfg == nil {
@@ -599,6 +606,7 @@ func cmdCheck(args []string) int {
 	seenKnown := map[string]bool{}
 	nontrivial := 0
 	coverDecl, coverHit := map[string]bool{}, map[string]bool{}
+	crossChecked, crossAgree, crossUnknown := 0, 0, 0
 
 	for _, rc := range cfg.Runs {
 		hs := rc.Quick
@@ -641,6 +649,9 @@ func cmdCheck(args []string) int {
 				}
 			}
 			reports = append(reports, rep)
+			crossChecked += s.CrossChecked
+			crossAgree += s.CrossAgree
+			crossUnknown += s.CrossUnknown
 			totalPaths += s.Paths
 			totalDec += s.Decisions
 			totalQ += s.Queries
@@ -811,6 +822,7 @@ func cmdCheck(args []string) int {
 		"solver":                        "z3 4.8.12 (incremental, one session per worker), int-wrap encoding; see DESIGN.md §2",
 		"known_findings_witnessed":      knownLines,
 		"cover_witnesses_reached":       coverHit,
+		"solver_cross_check":            map[string]int{"assertion_queries_rechecked": crossChecked, "second_solver_answers_agreeing": crossAgree, "second_solver_unknown": crossUnknown},
 		"inconclusive":                  inconclusive,
 		"traces_mismatching_impl":       validatedBad,
 	}
